@@ -1,7 +1,7 @@
 (* C10 - Outages block a component for exactly their duration, then release it. *)
 From Coq Require Import List ZArith Bool.
 From JSL Require Import Base.Res Base.ListX SM.Types SM.Util SM.Handler SM.Step SM.Inv
-  SMP.Post SMP.PostApply SMP.Offers SMP.Clock.
+  SMP.Post SMP.PostApply SMP.Offers SMP.Clock SM.Middleware SM.Example SMP.StepInv SMP.Clock SMP.Outages.
 Import ListNotations.
 
 (* machine: blocked until now + longest active outage; the job stays inside (internal buffer untouched) *)
@@ -82,3 +82,38 @@ Proof. intros b H. destruct b; simpl in H; try discriminate; reflexivity. Qed.
 Theorem C10_agv_outage_accepts_only_release :
   forall b, is_valid_transition transport_table (NT TOutage) (NT b) = true -> b = TIdle.
 Proof. intros b H. destruct b; simpl in H; try discriminate; reflexivity. Qed.
+
+(* Over whole runs: outside its OUTAGE phase every outage record of a machine or AGV is inactive (outages_b) and
+   every active record has start <= end (outage_nonneg_b) - after every applied transition, in every state the
+   environment reaches under any action sequence and in every micro-state on the way; for every instance with
+   non-negative configured times and every oracle. No side condition. *)
+Theorem C10_outage_records_one_transition :
+  forall (sigma : oracle) (i : inst) (x : state) (tr : transition) (x' : state),
+    inst_nonneg_b i = true -> clock_b x = true -> outages_b x && outage_nonneg_b x = true ->
+    apply_transition sigma i x tr = Ok x' -> outages_b x' && outage_nonneg_b x' = true.
+Proof.
+  intros sigma i x tr x' Hnn C O H. apply OUT_iff. eapply apply_preserves_OUT; eauto.
+  - apply ClockMain.NO_iff_clock_b; auto.
+  - apply OUT_iff; auto.
+Qed.
+Print Assumptions C10_outage_records_one_transition.
+
+Theorem C10_outage_records_reachable :
+  forall (sigma : oracle) (i : inst) (fuel : nat) (x0 : state) (joker0 : Z) (ta : bool) (r : result) (m : mw),
+    inst_nonneg_b i = true -> clock_b x0 = true -> outages_b x0 && outage_nonneg_b x0 = true ->
+    reach sigma i fuel x0 joker0 ta r m -> outages_b (r_x r) && outage_nonneg_b (r_x r) = true.
+Proof. intros. eapply reach_outages; eauto. Qed.
+Print Assumptions C10_outage_records_reachable.
+
+Theorem C10_outage_records_micro_states :
+  forall (sigma : oracle) (i : inst) (fuel : nat) (x0 : state) (joker0 : Z) (ta : bool) (r : result) (m : mw)
+         (a : Z) (r' : result) (m' : mw) (lg : mlog),
+    inst_nonneg_b i = true -> clock_b x0 = true -> outages_b x0 && outage_nonneg_b x0 = true ->
+    reach sigma i fuel x0 joker0 ta r m -> mw_step sigma i fuel r m a = MOk r' m' lg ->
+    forall tr y, In (tr, y) lg -> outages_b y && outage_nonneg_b y = true.
+Proof. intros. eapply reach_micro_outages; eauto. Qed.
+Print Assumptions C10_outage_records_micro_states.
+
+Example C10_hypotheses_satisfiable :
+  inst_nonneg_b ex_inst = true /\ clock_b ex_state = true /\ outages_b ex_state && outage_nonneg_b ex_state = true.
+Proof. vm_compute. repeat split. Qed.
